@@ -110,10 +110,17 @@ def check(prop, tier, seed):
                 for s in scripts:
                     line = json.dumps(s, separators=(",", ":"))
                     f.write(line + "\n" + line + "\n")        # every script twice in the same process
+            # the further processes run the scripts in the opposite order: what a world does must not
+            # depend on which worlds lived in the process before it
+            spr = os.path.join(workdir, dom + ".scripts_rev")
+            with open(spr, "w") as f:
+                for s in reversed(scripts):
+                    line = json.dumps(s, separators=(",", ":"))
+                    f.write(line + "\n" + line + "\n")
             traces = []
             for p in range(params["processes"]):
                 tp = os.path.join(workdir, "%s.t%d" % (dom, p))
-                r = C.sh([C.BIN, dom, sp, tp], timeout=1500, env={"VERIF_PROC": str(p)})
+                r = C.sh([C.BIN, dom, sp if p == 0 else spr, tp], timeout=1500, env={"VERIF_PROC": str(p)})
                 if r.returncode != 0:
                     # the code under test brought the process down while a script was replayed
                     # (every script runs to completion in the other checks' single runs)
@@ -141,8 +148,9 @@ def check(prop, tier, seed):
                 if any(k in a[0] for k in ("hash", "btree")) or dom != "world":
                     nhash += 1
                 for p in range(1, len(traces)):
-                    if i < len(traces[p]):
-                        pf.write(json.dumps({"tid": tid, "kind": "cross", "a": a, "b": traces[p][i][1]}) + "\n")
+                    j = len(traces[p]) - 2 - i          # reversed order there
+                    if 0 <= j < len(traces[p]) and traces[p][j][0] == tid:
+                        pf.write(json.dumps({"tid": tid, "kind": "cross", "a": a, "b": traces[p][j][1]}) + "\n")
                         npairs += 1
     # TLC validates the pairs (split into chunks)
     lines = open(pairs_path).read().splitlines()
